@@ -1,8 +1,95 @@
-(* C08 -- Mock verdict is exact.  Only statements; every proof is `exact <lemma>` into C08_Proofs.v. *)
-From Coq Require Import ZArith NArith Bool List.
-From CppUVerif Require Import lib.CInt lib.Str C08_Model C08_Proofs.
+(* C08 -- Mock verdict is exact: passes iff actual calls match the expectations.
+   Only statements; every proof is `exact <lemma>` into C08_Proofs*.v.
+   Proved fragment: expectNCalls/expectOneCall with typed input parameters and return values, actualCall + withParameter +
+   returnValue, checkExpectations, strictOrder, ignoreOtherCalls, on canonical scenarios (configuration, expectations, calls,
+   final check) whose actual calls pass no parameter name twice.  NOT covered by the theorems (model = implementation agreement
+   and the spec oracle only): ignoreOtherParameters, intermediate clear/check, expectations added between calls; not modelled:
+   onObject, output parameters, custom comparators, scopes. *)
+From Coq Require Import ZArith NArith Bool List Permutation.
+From CppUVerif Require Import lib.CInt lib.Str C08_Model C08_Proofs C08_Proofs2 C08_Proofs3.
+From CppUVerif Require C09_Model.
 Import ListNotations.
 
-Theorem C08_veq_refl : forall v, pv_valid v = true -> veq v v = true.
-Proof. exact veq_refl. Qed.
-Print Assumptions C08_veq_refl.
+(* L refines M: the flag/candidate-list machinery of the code (model L) delivers, on every judged scenario -- for arbitrary, also
+   overlapping, expectation sets -- the same failing operation, the same diagnosis and the same returned values as the flag-free
+   reference semantics M (remaining capacities, first open expectation that is exactly the call). *)
+Theorem C08_L_refines_M : forall ops k,
+  parse ops = Some k -> judged k = true -> proj (run ops) = lift (expected k).
+Proof. exact L_refines_M. Qed.
+Print Assumptions C08_L_refines_M.
+
+(* spec s (run s) = true; _partial: the first clause of the spec (passes iff multisets / sequences agree) is assumed to be M's
+   verdict for the scenario (verdict_agrees: the M-level counting theorem is not proved in general yet); the first-deviation and
+   returned-value clauses are proved outright. *)
+Theorem C08_run_meets_spec_partial : forall ops,
+  (forall k, parse ops = Some k -> judged k = true -> verdict_agrees k) -> spec ops (run ops) = true.
+Proof. exact run_meets_spec_partial. Qed.
+Print Assumptions C08_run_meets_spec_partial.
+
+(* first deviation: a judged scenario fails with exactly M's diagnosis at M's operation; the FAIL("This cannot happen") of
+   MockCheckedActualCall::checkExpectations and (in this fragment) the missing-object failure are unreachable *)
+Theorem C08_first_deviation : forall ops k i fl,
+  parse ops = Some k -> judged k = true -> o_fail (run ops) = Some (i, fl) ->
+  f_kind fl <> FCannotHappen /\ (forall f, f_kind fl <> FObjectMissing f) /\
+  exists d, fst (expected k) = Some (i, d) /\ dkind_of (f_kind fl) = Some d.
+Proof. exact no_impossible_failure. Qed.
+Print Assumptions C08_first_deviation.
+
+(* within one actual call: between the parameters the candidates are exactly the open expectations agreeing with the parameters
+   passed so far, their flags say which parameters were passed, nothing is finalized (appendix A1), and finishing the call
+   consumes the first open expectation that is exactly the call, returning its value *)
+Theorem C08_call_consumes_exact : forall f P es c,
+  Inv f P es c -> Forall wfE es ->
+  match check_call es c with
+  | inl (es', c') => exists v, consume f P (c_order c) (map abs es) = Some (map abs es', v) /\ cur_ret es' = v /\
+                               c_state c' = Succeeded /\ c_checked c' = true /\ Forall wfE es'
+  | inr fl => consume f P (c_order c) (map abs es) = None /\ f_kind fl = FParamMissing f (N.of_nat (length (filter e_pot es))) /\
+              exists e, In e es /\ liveL f P e = true
+  end.
+Proof. exact finish_inv. Qed.
+Print Assumptions C08_call_consumes_exact.
+
+(* the invariant is established by the constructor + withName from ANY flag state (this is what the repair guarantees) ... *)
+Theorem C08_call_starts_clean : forall f es c,
+  (forall e, In e es -> e_ign e = false) -> c_name c = f -> c_checked c = false ->
+  match with_name (create true es) c with
+  | inr fl => (forall e, In e es -> can_match e && relates f e = false) /\
+              f_kind fl = (let n := fulfilled_for f es in if (0 <? n)%N then FAdditionalCall f (n + 1)%N else FUnexpectedCall f)
+  | inl (es', c') => Inv f [] es' c' /\ map stat es' = map stat es /\ c_order c' = c_order c /\
+                     exists e, In e es /\ can_match e && relates f e = true
+  end.
+Proof. exact with_name_inv. Qed.
+Print Assumptions C08_call_starts_clean.
+
+(* ... and preserved by every parameter not passed before *)
+Theorem C08_parameter_preserves_invariant : forall f P n v es c,
+  Inv f P es c -> passed P n = false ->
+  match check_input n v es c with
+  | inr fl => (forall e, In e es -> liveL f (P ++ [(n, v)]) e = false) /\
+              f_kind fl = (if existsb (fun e => relates f e && has_input_name n e) es then FParamValue f n else FParamName f n)
+  | inl (es', c') => Inv f (P ++ [(n, v)]) es' c' /\ map stat es' = map stat es /\ c_order c' = c_order c /\
+                     exists e, In e es /\ liveL f (P ++ [(n, v)]) e = true
+  end.
+Proof. exact check_input_inv. Qed.
+Print Assumptions C08_parameter_preserves_invariant.
+
+(* a call succeeds iff some unfulfilled expectation of that function has exactly the call's parameter set *)
+Theorem C08_call_succeeds_iff : forall f ps o xs,
+  (exists xs' v, consume f ps o xs = Some (xs', v)) <-> (exists x, In x xs /\ x_open x = true /\ matches (x_e x) f ps = true).
+Proof. exact call_succeeds_iff. Qed.
+Print Assumptions C08_call_succeeds_iff.
+
+(* the verdict clause of the spec is independent of the order of the actual calls *)
+Theorem C08_verdict_permutation_invariant : forall es cs cs', Permutation cs cs' -> multiset_ok es cs = multiset_ok es cs'.
+Proof. exact multiset_ok_perm. Qed.
+Print Assumptions C08_verdict_permutation_invariant.
+
+(* parameter equality used here is MockNamedValue::equals as modelled and proved in C09 *)
+Theorem C08_veq_is_C09_equals : forall a b, pv_valid a = true -> pv_valid b = true -> veq a b = C09_Model.equals (emb a) (emb b).
+Proof. exact veq_is_C09_equals. Qed.
+Print Assumptions C08_veq_is_C09_equals.
+
+(* the code before the repair f9780ee (stale matched-flags of expectations pruned in the middle of a call) violated the spec *)
+Theorem C08_run_old_refuted : ~ run_old_meets_spec_stmt.
+Proof. exact run_old_refuted. Qed.
+Print Assumptions C08_run_old_refuted.
